@@ -113,15 +113,38 @@ def ge_probe():
     return rc == 0
 
 
+def rank0_probe():
+    """do == / != compile between rank-0 arrays?  (the property's quantifier starts at dimensionality 0)"""
+    import os
+    rc, out, err = core.sh(["g++", "-std=c++17", "-fsyntax-only", "-I" + core.INCLUDE,
+                            os.path.join(core.VERIF, "harness", "c07_rank0_probe.cpp")], timeout=300)
+    return rc == 0, (out + err)
+
+
 def run(tier, seed, replay=None):
     import os
     res = core.Result(PID, tier, seed, level="proof")
     fam = FAMILY
     has_ge = ge_probe()
-    if has_ge:
-        fam.flags = ("-DC07_HAS_GE",)
-        os.environ["C07_HAS_GE"] = "1"
+    has_rank0, rank0_log = rank0_probe()
+    flags = []
+    if has_rank0:
+        flags.append("-DC07_HAS_RANK0")
     else:
+        kf = core.match_known(PID, {"harness": "h_compare", "found_by": "api-gap", "operator": "eq", "rank": "0"})
+        if kf:
+            res.known_finding(kf)
+        else:
+            first = [l for l in rank0_log.splitlines() if "error" in l][:1]
+            path = core.write_replay(PID, open(os.path.join(core.VERIF, "harness", "c07_rank0_probe.cpp")).read(),
+                                     {"property": PID, "found-by": "build:== between rank-0 arrays does not compile",
+                                      "compiler-said": first[0] if first else ""})
+            res.violation(path, "array<T,0> == array<T,0> does not compile (%s)" % (first[0][-160:] if first else "see replay"))
+    if has_ge:
+        flags.append("-DC07_HAS_GE")
+        os.environ["C07_HAS_GE"] = "1"
+    fam.flags = tuple(flags)
+    if not has_ge:
         kf = core.match_known(PID, {"harness": "h_compare", "found_by": "api-gap", "operator": "ge", "rank": ">=2"})
         if kf:
             res.known_finding(kf)
@@ -138,7 +161,7 @@ def run(tier, seed, replay=None):
     count = 4000 if tier == "quick" else 80000
     prog_c = fam.corpus()
     obs_c = fam.model_run(prog_c) if prog_c else ""
-    prog_g, obs_g, dist = fam.generate(seed, count, prefix="c", extra=(["--has-ge"] if has_ge else []))
+    prog_g, obs_g, dist = fam.generate(seed, count, prefix="c", extra=(["--has-ge"] if has_ge else []) + (["--rank0"] if has_rank0 else []))
     obs_g = normalise(obs_g, empties(obs_g))
     prog_text, obs_text = prog_c + prog_g, obs_c + obs_g
     impl_text, crashes = fam.impl_run(prog_text)
@@ -147,7 +170,7 @@ def run(tier, seed, replay=None):
     res.coverage.update({
         "evaluations": len(core.split_cases(prog_text)),
         "distinct_nontrivial": progcheck.distinct_nontrivial(prog_text, min_lines=6, prefixes=("xroot", "xop ", "xdata")),
-        "rule": "three logical arrays a, b, c of equal rank 1..3 over the alphabet {0,1,2}: b's extents equal a's (55%) or differ "
+        "rule": "three logical arrays a, b, c of equal rank 1..4 (and rank 0 -- scalars held by array_ref<int,0>, array<int,0>, array<double,0>, const and cref kinds -- in 4% of the cases) over the alphabet {0,1,2}: b's extents equal a's (55%) or differ "
                 "by one in one dimension, contents copied on the common index tuples then changed in at most one place (so equal "
                 "operands and equal prefixes are common), c likewise from b or a; each realised as a view over its own padded / "
                 "rotated / stride-2 root filled with junk elsewhere; all of == != < <= > (>= for rank 1) on the views, on owning "
@@ -158,7 +181,7 @@ def run(tier, seed, replay=None):
         "observation_lines_compared": obs_text.count("\n"),
         "corpus_cases": len(core.split_cases(prog_c)),
         "disagreeing_cases": n_failing,
-        "not_exercised": ["convertible element types (int vs double)", "rank 0 and rank 4", "fancy pointers (C11)"],
+        "not_exercised": ["rank >= 5", "fancy pointers (C11)"],
     })
     res.assumptions = ["no 64-bit overflow", "g++ 12 / libstdc++ as installed", "element order is that of int"]
     return res.finish()
